@@ -4,9 +4,14 @@ import (
 	"bufio"
 	"fmt"
 	"io"
+	"unsafe"
 
 	"github.com/tuneinsight/lattigo/v6/utils/buffer"
 )
+
+// maxPreallocBytes bounds the memory that Vector.ReadFrom and Matrix.ReadFrom allocate on the sole basis of a
+// size read from the input, i.e. ahead of the data: larger objects are grown as their content arrives.
+const maxPreallocBytes = 1 << 17
 
 // Vector is a struct wrapping a slice of components of type T.
 // T can be:
@@ -174,58 +179,79 @@ func (v *Vector[T]) ReadFrom(r io.Reader) (n int64, err error) {
 
 		n += inc
 
-		if cap(*v) < size {
-			*v = make([]T, size)
+		if size < 0 {
+			return n, fmt.Errorf("invalid vector size: %d", size)
 		}
 
-		*v = (*v)[:size]
-
 		var t T
-		switch any(t).(type) {
-		case uint, uint64, int, int64, float64:
 
-			if inc, err = buffer.ReadAsUint64Slice[T](r, *v); err != nil {
-				return n + inc, fmt.Errorf("buffer.ReadAsUint64Slice[%T]: %w", t, err)
-			}
+		// The size announced by r is not trusted for the allocation: at most maxPrealloc
+		// components are allocated ahead of the data that has actually been read.
+		maxPrealloc := maxPreallocBytes / max(1, int(unsafe.Sizeof(t)))
 
-			n += inc
+		if cap(*v) < size {
+			*v = make([]T, min(size, maxPrealloc))
+		}
 
-		case uint32, int32, float32:
+		*v = (*v)[:min(size, cap(*v))]
 
-			if inc, err = buffer.ReadAsUint32Slice[T](r, *v); err != nil {
-				return n + inc, fmt.Errorf("buffer.ReadAsUint32Slice[%T]: %w", t, err)
-			}
+		for done := 0; ; {
 
-			n += inc
+			// Components still to be read
+			c := (*v)[done:]
 
-		case uint16, int16:
+			switch any(t).(type) {
+			case uint, uint64, int, int64, float64:
 
-			if inc, err = buffer.ReadAsUint16Slice[T](r, *v); err != nil {
-				return n + inc, fmt.Errorf("buffer.ReadAsUint16Slice[%T]: %w", t, err)
-			}
-
-			n += inc
-
-		case uint8, int8:
-
-			if inc, err = buffer.ReadAsUint8Slice[T](r, *v); err != nil {
-				return n + inc, fmt.Errorf("buffer.ReadAsUint8Slice[%T]: %w", t, err)
-			}
-
-			n += inc
-		default:
-
-			if _, isReadable := any(new(T)).(io.ReaderFrom); !isReadable {
-				return 0, fmt.Errorf("vector component of type %T does not comply to %T", t, new(io.ReaderFrom))
-			}
-
-			for i := range *v {
-				if inc, err = any(&(*v)[i]).(io.ReaderFrom).ReadFrom(r); err != nil {
-					var t T
-					return n + inc, fmt.Errorf("%T.ReadFrom: %w", t, err)
+				if inc, err = buffer.ReadAsUint64Slice[T](r, c); err != nil {
+					return n + inc, fmt.Errorf("buffer.ReadAsUint64Slice[%T]: %w", t, err)
 				}
+
 				n += inc
+
+			case uint32, int32, float32:
+
+				if inc, err = buffer.ReadAsUint32Slice[T](r, c); err != nil {
+					return n + inc, fmt.Errorf("buffer.ReadAsUint32Slice[%T]: %w", t, err)
+				}
+
+				n += inc
+
+			case uint16, int16:
+
+				if inc, err = buffer.ReadAsUint16Slice[T](r, c); err != nil {
+					return n + inc, fmt.Errorf("buffer.ReadAsUint16Slice[%T]: %w", t, err)
+				}
+
+				n += inc
+
+			case uint8, int8:
+
+				if inc, err = buffer.ReadAsUint8Slice[T](r, c); err != nil {
+					return n + inc, fmt.Errorf("buffer.ReadAsUint8Slice[%T]: %w", t, err)
+				}
+
+				n += inc
+			default:
+
+				if _, isReadable := any(new(T)).(io.ReaderFrom); !isReadable {
+					return 0, fmt.Errorf("vector component of type %T does not comply to %T", t, new(io.ReaderFrom))
+				}
+
+				for i := range c {
+					if inc, err = any(&c[i]).(io.ReaderFrom).ReadFrom(r); err != nil {
+						var t T
+						return n + inc, fmt.Errorf("%T.ReadFrom: %w", t, err)
+					}
+					n += inc
+				}
 			}
+
+			if done = len(*v); done == size {
+				break
+			}
+
+			*v = append(*v, make([]T, min(size-done, maxPrealloc))...)
 		}
 
 		return n, nil
